@@ -25,8 +25,9 @@ def table(sel):
         out.append(f"| `{name}` | {prop} | {verdict}: {how(first)} | `{f}` |")
     return "\n".join(out)
 
-w1 = [r for r in rows if "-w2-" not in r[0]]
+w1 = [r for r in rows if "-w2-" not in r[0] and "-w3-" not in r[0]]
 w2 = [r for r in rows if "-w2-" in r[0]]
+w3 = [r for r in rows if "-w3-" in r[0]]
 counts = {}
 for r in rows: counts[r[3]] = counts.get(r[3], 0) + 1
 hrows = [l.rstrip("\n").split("\t") for l in open(f"{V}/harmless/RESULTS.tsv") if l.strip()] if os.path.exists(f"{V}/harmless/RESULTS.tsv") else []
@@ -46,10 +47,11 @@ text = f"""## 10. Seeded changes and harmless refactorings: what the checks repo
 ### 10.1 Seeded changes (must be reported)
 
 {len(rows)} seeded changes are kept under `seeded/<name>/` (`patch.diff`, the author's demonstration, `meta.json`: which
-property, what it needs to manifest, what was run — `confirmed_by_me`). They come from two waves of fresh sub-agents
-(34 + 34 changes; each agent was given only the text of the properties it worked on and scratch git worktrees under /tmp,
-nothing from /verif, with the stated purpose of testing these checks and the request that the change compile, keep the
-pinned suite green and need something specific to manifest) and from the reverse patches of the eight `fix:` commits
+property, what it needs to manifest, what was run — `confirmed_by_me`). They come from three waves of fresh sub-agents
+(34 + 34 + 23 changes; each agent was given only the text of the properties — waves 1 and 2: of the properties it worked on;
+wave 3: of all 18, plus an area of the source to work in and the request to avoid the index arithmetic the earlier waves had
+concentrated on — and scratch git worktrees under /tmp, nothing from /verif, with the stated purpose of testing these
+checks and the request that the change compile, keep the pinned suite green and need something specific to manifest) and from the reverse patches of the eight `fix:` commits
 (`*-regress-Dn`). Every one was confirmed by hand before it was kept: it applies to /repo's HEAD, the pinned suite stays
 green with it (36 passed), and the check of its property was run against it. None was ever applied to /repo other than by
 `tools/seedtest.sh` (`git -C /repo apply`, run the check, `git -C /repo checkout -- .`); the scratch worktrees were removed
@@ -68,7 +70,12 @@ Second wave (names `Cxx-w2-…`; a few are the same source change as a first-wav
 
 {table(w2)}
 
-What the two waves taught (every item below was a miss or an inconclusive report on the first run and is now reported with a
+Third wave (names `Cxx-w3-…`; by area of the code: cell primitives and the shared handle, storage and constructors, async
+wrappers, the public operations of the three iterators, the two buffer variants and `Detached`):
+
+{table(w3)}
+
+What the waves taught (every item below was a miss or an inconclusive report on the first run and is now reported with a
 concrete replay):
 
 * `C06-copy-bytes-by-align` (copies `n·align_of::<T>()` bytes): invisible with `u64`/`Tok` items → item type `C12` (12-byte
@@ -91,6 +98,14 @@ concrete replay):
   the scheduler checks at the FREE event that the freeing thread's clock covers every other thread's.
 * `C15-w2-poll-no-recheck-after-register`, `C15-w2-waker-registered-only-once`: parts of C15 that hold on this tree and
   that no single-threaded poll history can reach → engine `wakeprobe`.
+* `C07-w3-drop-in-place-no-dealloc` (the release event is emitted but the box is never deallocated) → the harness's global
+  allocator watches the allocation reported by the BOX event: "released" means deallocated.
+* `C09-w3-heap-new-zeroed-uses-uninit-allocation` → the same allocator fills every fresh non-zeroed allocation with 0xA5.
+* `C07-w3-async-split-registers-phantom-worker`, `C07-w3-async-work-into-sync-double-release`: `split_async`,
+  `split_mut_async`, `into_sync` were never called → `asyncdiff` builds half of its concurrent heap cases through them and
+  judges liveness flags and releases with the life-cycle oracle.
+* `C07-w2-release-before-flag-clear` and friends are additionally refused by the drop-protocol replay on the Lean machine
+  (`decrement-before-flag-clear`).
 
 Minimised replays of first-wave seeds are kept as a regression corpus (`corpus/<profile>/*.case`, `corpus/conc/*.cprog`)
 that runs first on every check; on the unchanged tree they pass.
